@@ -311,15 +311,22 @@ class RefBuild:
         nr = self.needs_run(d, memo, stack)
         if nr == self.NO:
             return self.NO
-        if m.failed.get(d) or not m.built.get(d):
+        if not m.built.get(d):
+            return self.YES
+        csummed = m.kind_at_build.get(d) == "csum" and d in m.digest
+        if m.failed.get(d) and not csummed:
             return self.YES
         if getattr(self, "assume_csum_changes", False):
             return nr
-        if m.kind_at_build.get(d) == "csum" and d in m.digest:
-            # a checksummed target that re-runs changes for its dependents only if the checksum differs
+        if csummed:
+            # a checksummed target that re-runs changes for its dependents only if the checksum differs -- also when
+            # its last attempt failed: the recorded checksum is that of its last successful build, which is what the
+            # dependents were built from
             v = m.evaluate(d)
             if v is FAIL:
-                return self.YES
+                # its rebuild will fail, and with it every command that needs it: whether a dependent's script was
+                # started before that is not the user's concern (slack, decided by the observation)
+                return self.MAYBE
             r = m.rule_for(d)
             if r is None or r[1].kind != "csum":
                 return self.YES
